@@ -90,6 +90,11 @@ ACT_DEFECTS = [
     ('act-undefined-symbol', ['% mark @[UNDEFINED]@'], ('VALIDATION_ERROR',)),
     ('act-defined-later', ['% mark @[LATER]@'], ('VALIDATION_ERROR',)),
     ('act-missing-program', ['no-such-program-in-act-home'], ('VALIDATION_ERROR',)),
+    # defects in the stdin / transformation parts of the action to check (validated like the command itself)
+    ('act-stdin-missing-home-file', ['% mark a', '-stdin -contents-of -rel-home no-such-file'], ('VALIDATION_ERROR',)),
+    ('act-transformer-bad-regex', ['% mark a', "-transformed-by replace '(' x"], ('VALIDATION_ERROR', 'SYNTAX_ERROR')),
+    ('act-transformer-bad-integer', ['% mark a', '-transformed-by filter -line-nums notAnInt'], ('VALIDATION_ERROR', 'SYNTAX_ERROR')),
+    ('act-stdin-and-transformer-missing-file', ['% mark a', '-stdin abc', '-transformed-by run -rel-home no-such-program'], ('VALIDATION_ERROR',)),
 ]
 ALL_DEFECTS = {d[0]: d for d in DEFECTS + ASSERT_ONLY + SETUP_ONLY + CONF_DEFECTS + ACT_DEFECTS}
 
